@@ -1,7 +1,8 @@
 """C02 — every returned position honours all three active constraints."""
 import math
 import numpy as np
-from harness.common import VOID, AXES, mk_ub
+from vlib import quiet
+from harness.common import rot_from_rotvec, VOID, AXES, mk_ub
 from harness import pipeline as PL, solver as S
 from props import c01
 
@@ -36,7 +37,8 @@ def correspondence(ctx):
 def oracle(ctx, widen=1):
     from diffcalc.hkl.calc import HklCalculation
     from diffcalc.hkl.constraints import Constraints
-    reqs = c01.requests(ctx, ctx.scale(3, 200) * widen, ctx.scale(1, 50)) + degenerate_requests(ctx, ctx.scale(60, 3000) * widen)
+    reqs = (c01.requests(ctx, ctx.scale(3, 200) * widen, ctx.scale(1, 50)) + degenerate_requests(ctx, ctx.scale(60, 3000) * widen)
+            + PL.exact_ttheta_requests(ctx.rng, ctx.scale(1, 20) * widen))
     ok_modes = set()
     elements = 0
     for ub, vals, hkl, wl, tag in reqs:
@@ -55,6 +57,41 @@ def oracle(ctx, widen=1):
                               {"kind": "constraint-not-honoured", "mode": ",".join(sorted(vals)), "family": tag.split(":")[0]})
                 break
     ctx.stream("oracle:honours", len(reqs), len(ok_modes), returned_elements=elements)
+    # the same HklCalculation object asked again after its reference / surface vectors, constraints or UB changed
+    nseq = ctx.scale(80, 4000) * widen
+    nq = 0
+    for it in range(nseq):
+        tr = ctx.rng.choice(PL.modes())
+        ub, kind = PL.rand_ub(ctx.rng, ctx.rng.choice(["triclinic", "ortho-lab"]))
+        r = PL.construct_request(ctx.rng, ub, tr)
+        if r is None:
+            continue
+        ub2, vals, hkl, P = r
+        hc = HklCalculation(ub2, Constraints(vals))
+        S.run_impl("full", hc, hkl, 1.0)
+        change = ctx.rng.choice(["n_hkl", "n_phi", "surf_nhkl", "surf_nphi", "set_u", "constraint"])
+        with quiet():
+            if change in ("n_hkl", "n_phi", "surf_nhkl", "surf_nphi"):
+                setattr(ub2, change, tuple(ctx.rng.uniform(-1, 1) for _ in range(3)))
+            elif change == "set_u":
+                ub2.set_u(rot_from_rotvec([ctx.rng.uniform(-0.3, 0.3) for _ in range(3)]) @ np.asarray(ub2.U))
+            else:
+                nm = [n for n in vals if n not in VOID]
+                if nm:
+                    vals = dict(vals); vals[nm[0]] = vals[nm[0]] + 2.0
+                    setattr(hc.constraints, nm[0], vals[nm[0]])
+        res = S.run_impl("full", hc, hkl, 1.0)
+        nq += 1
+        if res[0] != "ok":
+            continue
+        n, s_ = PL.vectors(ub2)
+        for pos, va in res[1]:
+            bad = PL.honours(tuple(vals), vals, pos, n, s_)
+            if bad:
+                ctx.violation(f"mode {sorted(vals)}: the same calculator asked again after `{change}` changed returned {tuple(round(x, 5) for x in pos)} where {bad[0]}",
+                              {"constraints": vals, "hkl": list(hkl), "change": change}, {"kind": "constraint-not-honoured-after-change", "change": change})
+                break
+    ctx.stream("oracle:honours-after-change", nq, nq)
 
 
 def replay(ctx, data):
